@@ -45,7 +45,9 @@ def partitions(tier):
     b = bounds(tier)
     for (st, sc, ms) in CONFIGS:
         for j in b['J']:
-            npin = 0 if j == 1 else (2 if tier == 'quick' else 4)
+            npin = 0 if j == 1 else (2 if tier == 'quick' else 3)
+            if j == 3 and (st, sc, ms) not in CONFIGS[:3]:
+                continue      # three workers: three configurations only
             for pin in itertools.product((0, 1), repeat=npin):
                 nm = f'{st}_{sc}_{ms}_j{j}' + (
                     '_p' + ''.join(map(str, pin)) if pin else '')
